@@ -192,7 +192,7 @@ func tlFinalChecks(s *Stream, sc tlScenario, tl *tasklane.TaskLane, r *tlRun, pu
 	late := &tlTask{id: -1, r: r}
 	for lane := 0; lane < sc.L; lane++ {
 		err := tl.PushTask(late, lane)
-		if err == nil || !errors.Is(err, cancelled.Err()) {
+		if err == nil || err != cancelled.Err() {
 			s.Violate("push-after-cancel", fmt.Sprintf("PushTask after cancel returned %v, want %v", err, cancelled.Err()), sc)
 		}
 	}
@@ -212,8 +212,14 @@ func tlFinalChecks(s *Stream, sc tlScenario, tl *tasklane.TaskLane, r *tlRun, pu
 			s.Violate("started-twice", fmt.Sprintf("task %d started %d times", id, n), sc)
 		}
 	}
+	acceptedID := map[int]bool{}
 	for _, p := range pushes {
-		if p.err != nil && starts[p.id] > 0 {
+		if p.err == nil {
+			acceptedID[p.id] = true
+		}
+	}
+	for _, p := range pushes {
+		if p.err != nil && !acceptedID[p.id] && starts[p.id] > 0 {
 			s.Violate("rejected-task-started", fmt.Sprintf("task %d was started although PushTask returned %v", p.id, p.err), sc)
 		}
 	}
@@ -361,6 +367,14 @@ func tlStress(s *Stream, rng *Rng, withCancel bool, statusFocus bool) {
 				mu.Lock()
 				pushes = append(pushes, tlPush{id, lane, err})
 				mu.Unlock()
+				// a caller that gets ErrTimeout typically tries again with the SAME task object
+				for retry := 0; retry < 2 && errors.Is(err, tasklane.ErrTimeout) && pr.Chance(30); retry++ {
+					runtime.Gosched()
+					err = tl.PushTask(t, lane)
+					mu.Lock()
+					pushes = append(pushes, tlPush{id, lane, err})
+					mu.Unlock()
+				}
 				if int(pushed.Add(1)) == cancelAfter {
 					cancel()
 				}
@@ -385,7 +399,7 @@ func tlStress(s *Stream, rng *Rng, withCancel bool, statusFocus bool) {
 	mu.Unlock()
 	for _, p := range pushes {
 		if p.err == nil {
-			accepted++
+			accepted++ // a task object is pushed again only after an error, so at most one nil per id
 		} else if !errors.Is(p.err, tasklane.ErrTimeout) && !errors.Is(p.err, context.Canceled) {
 			s.Violate("push-error-kind", fmt.Sprintf("PushTask returned unexpected error %v", p.err), sc)
 		}
@@ -928,6 +942,49 @@ func tlOddLifetimes(s *Stream, rng *Rng, L, Q int) {
 		tlFinalChecks(s, sc, tl, r, []tlPush{{1, 0, err}}, ctx)
 		s.Evaluations++
 		s.Nontrivial(fmt.Sprintf("cancel-mid-task/%d/%d", L, Q))
+	}
+	// (e) several goroutines call Wait() while tasks are still queued at cancel: all of them return
+	{
+		sc := tlScenario{Kind: "concurrent-wait", L: L, Q: Q}
+		ctx, cancel := context.WithCancel(context.Background())
+		tl := tasklane.New(ctx, L, Q)
+		tl.SetTimeout(time.Millisecond)
+		r := newTLRun()
+		release := make(chan struct{})
+		var pushes []tlPush
+		for i := 0; i < L*(Q+2); i++ { // pin the workers, fill the lanes
+			t := &tlTask{id: i, r: r, block: release}
+			pushes = append(pushes, tlPush{i, i % L, tl.PushTask(t, i%L)})
+		}
+		cancel()
+		close(release)
+		var wwg sync.WaitGroup
+		for w := 0; w < 4; w++ {
+			wwg.Add(1)
+			go func() { defer wwg.Done(); tl.Wait() }()
+		}
+		allBack := make(chan struct{})
+		go func() { wwg.Wait(); close(allBack) }()
+		select {
+		case <-allBack:
+		case <-time.After(tlDeadline):
+			s.Violate("wait-does-not-return", "one of 4 concurrent Wait() callers did not return after cancel with no task running", sc)
+		}
+		tlFinalChecks(s, sc, tl, r, pushes, ctx)
+		s.Evaluations++
+		s.Nontrivial(fmt.Sprintf("concurrent-wait/%d/%d", L, Q))
+	}
+	// (f) a context cancelled with a custom cause: PushTask reports the context's Err(), not the cause
+	{
+		sc := tlScenario{Kind: "cancel-cause", L: L, Q: Q}
+		ctx, cancel := context.WithCancelCause(context.Background())
+		tl := tasklane.New(ctx, L, Q)
+		tl.SetTimeout(tlDeadline)
+		r := newTLRun()
+		cancel(errors.New("operator pulled the plug"))
+		tlFinalChecks(s, sc, tl, r, nil, ctx)
+		s.Evaluations++
+		s.Nontrivial(fmt.Sprintf("cancel-cause/%d/%d", L, Q))
 	}
 	// (c)
 	{
